@@ -21,6 +21,7 @@ import (
 	"github.com/goatcms/goatcore/filesystem/filespace/encryptfs/cipherfs/extcfs"
 	"github.com/goatcms/goatcore/filesystem/filespace/memfs"
 
+	"verif/explore"
 	"verif/fsx"
 	"verif/fw"
 	"verif/models/treefs"
@@ -455,6 +456,11 @@ func run(c *fw.Ctx) {
 		}
 		c.Violate(&fw.Violation{Property: "C05", Clause: f.clause, Signature: sg, Detail: fmt.Sprintf("config %+v\n%s", f.wit.Config, f.detail), Witness: fw.JSON(f.wit)})
 	}
+	// part 0: filespaces with different key material used concurrently (schedule exploration)
+	runConc(c)
+	if c.R.InfraError != "" {
+		return
+	}
 	item := 0
 	for _, cfg := range cfgs {
 		// part A: round trip, secrecy, freshness
@@ -593,6 +599,14 @@ func run(c *fw.Ctx) {
 
 func replay(w json.RawMessage) (*fw.Violation, error) {
 	rand.Reader = &counterReader{}
+	var cw struct {
+		Program string   `json:"program"`
+		Spec    ConcSpec `json:"spec"`
+		Choices []int    `json:"choices"`
+	}
+	if err := json.Unmarshal(w, &cw); err == nil && strings.HasPrefix(cw.Program, "conc/") {
+		return explore.ReplayProgram(mkConc(cw.Spec), cw.Choices)
+	}
 	var wit witness
 	if err := json.Unmarshal(w, &wit); err != nil {
 		return nil, err
@@ -654,7 +668,7 @@ func replay(w json.RawMessage) (*fw.Violation, error) {
 
 func init() {
 	fw.Register(&fw.Check{ID: "C05", Level: "fault_enumeration",
-		Rule: "configurations = cipher{raw AES-GCM, tagged} x base{memory, disk} x secret{alpha,beta,''} x salt{salt1,salt2,''} x host-binding{off,on}; plaintexts of length {0,1,16,17,4096,(thorough: 15,33,70000)}; write path {WriteFile, Writer 1/3 chunks} x previous content {absent, shorter, longer} x read path {ReadFile, Reader buf 1/7/4096}; every other (secret,salt) of the pool plus one concatenation-colliding pair; two filespaces built from one caller-owned secret buffer with spare capacity and different salts, and the caller wiping its buffers afterwards; EVERY truncation length 0..N-1 and EVERY single-byte corruption (N positions x 255 values for short files; 3 values and strided interior positions for files > 300 bytes) of the stored bytes, each read on a fresh base; name-space ops in lock-step with the tree model. distinct = cases, all non-trivial (each runs the real cipher)",
+		Rule: "configurations = cipher{raw AES-GCM, tagged} x base{memory, disk} x secret{alpha,beta,''} x salt{salt1,salt2,''} x host-binding{off,on}; plaintexts of length {0,1,16,17,4096,(thorough: 15,33,70000)}; write path {WriteFile, Writer 1/3 chunks} x previous content {absent, shorter, longer} x read path {ReadFile, Reader buf 1/7/4096}; every other (secret,salt) of the pool plus one concatenation-colliding pair; two filespaces built from one caller-owned secret buffer with spare capacity and different salts, and the caller wiping its buffers afterwards; EVERY truncation length 0..N-1 and EVERY single-byte corruption (N positions x 255 values for short files; 3 values and strided interior positions for files > 300 bytes) of the stored bytes, each read on a fresh base; name-space ops in lock-step with the tree model; plus 2-3 filespaces with different (and equal) secrets used from concurrent goroutines (write then read own file, then try every other tenant's secret on it) under every schedule with <= 2 (quick) / 3 (thorough) preemptions, with the race oracle on the encryptfs packages. distinct = cases, all non-trivial (each runs the real cipher)",
 		Run: run, Replay: replay,
 		Assumptions: []string{"crypto/rand.Reader is replaced by a deterministic never-repeating stream (nonce freshness stays observable)", "cryptographic strength is out of scope; host binding is exercised but a binding mismatch is not required to fail (the statement does not demand it)", "secrecy = stored bytes do not contain the plaintext (>= 8 bytes) nor its first 16 bytes"}})
 }
